@@ -275,8 +275,10 @@ pub(crate) fn parse_included_files<P: AsRef<Path>>(
         .statements()
         .filter_map(|parse_stmt| match parse_stmt {
             synast::Stmt::Include(include) => {
-                let file: synast::FilePath = include.file().unwrap();
-                let file_path = file.to_string().unwrap();
+                // An `include` without a usable path literal (missing, not a string, or with an
+                // invalid escape sequence) cannot name a file. Skip it here; it is reported as
+                // a syntax error by the parser or as `InvalidFilename` by semantic analysis.
+                let file_path = include.file()?.to_string()?;
                 // stdgates.inc will be handled "as if" it really existed.
                 if file_path == "stdgates.inc" {
                     None
